@@ -9,7 +9,7 @@ theorem gen_windowMult (p : WIn) : Gen.windowMult p = windowMult p := by
      by_cases h : p.win = 0 ∨ p.mss < 100
      · rw [if_pos h, if_pos]
        · rfl
-       · rcases h with h | h <;> simp [h]; omega
+       · rcases h with h | h <;> simp [h] <;> omega
      · rw [if_neg h, if_neg]
        · simp only []
          rw [firstHit_divides]
